@@ -92,6 +92,11 @@ def cases(tier, seed):
             out.append(('arith', ('-', ('+', X, Y), ('+', X, Z))))
             out.append(('arith', ('@', ('@', X, Y), ('+', X, Z))))
             out.append(('arith', ('+', ('@', Y, X), ('@', X, Z))))
+    # an operator next to ITS OWN lazy transpose / inverse (the same Python object inside the wrapper): only A.I may be absorbed
+    for n in ('P', 'Pa', 'U', 'Mk', 'Sl', 'Bd', 'W', 'V', 'Pp', 'Pg', 'Rs', 'A', 'D', 'Tz'):
+        X = L(n)
+        out += [('arith', ('@', X, ('T', X))), ('arith', ('@', ('T', X), X)), ('arith', ('@', ('T', X), ('T', ('T', X)))),
+                ('arith', ('+', ('@', X, ('T', X)), ('@', X, ('T', X)))), ('arith', ('@', ('@', X, ('T', X)), X)), ('arith', ('@', X, ('@', ('T', X), X)))]
     out += [('reject',), ('scalars',)]
     seen, res = set(), []
     for k in out:
